@@ -84,6 +84,30 @@ def plist_doc(v):
     return (PLIST_HEAD + _pl(v) + "</plist>\n").encode("utf-8")
 
 
+def legacy_glif_lib(rng):
+    """<lib> of a format-1 glif: none, ordinary keys, or -- left by a down-converting tool -- the key
+    public.objectLibs next to them: a dictionary with identifiers no object of the glyph has, an empty
+    dictionary, or a value that is no dictionary (which the loader must refuse)"""
+    r = rng.random()
+    if r < 0.5:
+        return ""
+    entries = [("k", "<string>v</string>")]
+    if r >= 0.72:
+        ol = rng.choice([
+            "<dict>\n        <key>%s</key>\n        <dict>\n          <key>com.example.x</key>\n          <integer>%d</integer>\n        </dict>\n      </dict>"
+            % (rng.choice(["id1", "anchor-7", "B0B0"]), rng.randint(0, 9)),
+            "<dict>\n        <key>p1</key>\n        <dict/>\n        <key>p2</key>\n        <dict>\n          <key>a</key>\n          <string>b</string>\n        </dict>\n      </dict>",
+            "<dict/>", "<dict/>",
+            "<string>not a dictionary</string>", "<array/>", "<integer>3</integer>"])
+        entries.append(("public.objectLibs", ol))
+        if rng.random() < 0.5:
+            entries.reverse()
+        if rng.random() < 0.3:
+            entries = [e for e in entries if e[0] != "k"]
+    body = "".join("      <key>%s</key>\n      %s\n" % e for e in entries)
+    return "  <lib>\n    <dict>\n%s    </dict>\n  </lib>\n" % body
+
+
 def gen_legacy(rng, version, path):
     os.makedirs(os.path.join(path, "glyphs"))
 
@@ -161,7 +185,7 @@ def gen_legacy(rng, version, path):
         glif = ('<?xml version="1.0" encoding="UTF-8"?>\n<glyph name="%s" format="1">\n  <advance width="%s"/>\n%s  <outline>\n%s  </outline>\n%s</glyph>\n'
                 % (n, rng.choice(["500", "512.5", "0"]),
                    '  <unicode hex="%04X"/>\n' % ord(n[0]) if rng.random() < 0.7 else "", pts,
-                   '  <lib>\n    <dict>\n      <key>k</key>\n      <string>v</string>\n    </dict>\n  </lib>\n' if rng.random() < 0.3 else ""))
+                   legacy_glif_lib(rng)))
         put("glyphs/" + fn, glif.encode("utf-8"))
     put("glyphs/contents.plist", plist_doc(contents))
 
@@ -183,7 +207,8 @@ def mutate(rng, ufo):
     kind = rng.choice(["drop_optional", "drop_layerinfo", "comment_plist", "decl", "crlf_plist", "move_default",
                        "orphan_object_libs", "meta_minor", "bom", "extra_file", "glif_attr_order", "truncate_features",
                        "dup_layer_entry", "empty_groups", "glif_formatminor", "objlibs_unknown_id",
-                       "dup_layer_name", "reserved_name", "dup_glif_file", "case_dup_layer_dir", "case_dup_glif"])
+                       "dup_layer_name", "reserved_name", "dup_glif_file", "case_dup_layer_dir", "case_dup_glif",
+                       "v1_glif_objectlibs"])
 
     def rd(p):
         with open(p, "rb") as f:
@@ -193,7 +218,20 @@ def mutate(rng, ufo):
         with open(p, "wb") as f:
             f.write(b)
     P = lambda *a: os.path.join(ufo, *a)  # noqa: E731
-    if kind == "drop_optional":
+    if kind == "v1_glif_objectlibs":
+        # a format-1 glif (inside a format-3 UFO) whose lib holds public.objectLibs
+        c = _files(ufo, ".glif")
+        if c:
+            p = rng.choice(c)
+            m = re.search(br'<glyph\s[^>]*?name\s*=\s*("[^"]*"|\'[^\']*\')', rd(p))
+            if m and b"&" not in m.group(1):
+                lib = ""
+                while "public.objectLibs" not in lib:
+                    lib = legacy_glif_lib(rng)
+                wr(p, (b'<?xml version="1.0" encoding="UTF-8"?>\n<glyph name=' + m.group(1) + b' format="1">\n  <advance width="500"/>\n'
+                       b'  <outline>\n    <contour>\n      <point x="0" y="0" type="line"/>\n      <point x="5" y="7" type="line"/>\n'
+                       b'    </contour>\n  </outline>\n' + lib.encode("utf-8") + b'</glyph>\n'))
+    elif kind == "drop_optional":
         c = [n for n in ("lib.plist", "fontinfo.plist", "groups.plist", "kerning.plist", "features.fea") if os.path.exists(P(n))]
         if c:
             os.remove(P(rng.choice(c)))
